@@ -50,7 +50,7 @@ PROPERTIES["C12"] = dict(
     ],
 )
 
-PIPE_FILES = ["pipeline/zz_verif_pipe.go", "pipeline/zz_verif_p08.go", "pipeline/zz_verif_p01.go", "pipeline/zz_verif_p01b.go", "pipeline/zz_verif_p01x.go", "pipeline/zz_verif_p01r.go", "pipeline/zz_verif_p13.go", "pipeline/zz_verif_p10.go", "pipeline/zz_verif_p09.go", "pipeline/zz_verif_p14.go", "pipeline/zz_verif_p12.go", "pipeline/zz_verif_p07.go", "config::config/zz_verif_export.go", "annotation::annotation/zz_verif_export.go", "assertion/global::global/zz_verif_export.go"]
+PIPE_FILES = ["pipeline/zz_verif_pipe.go", "pipeline/zz_verif_p08.go", "pipeline/zz_verif_p01.go", "pipeline/zz_verif_p01b.go", "pipeline/zz_verif_p01x.go", "pipeline/zz_verif_p01r.go", "pipeline/zz_verif_p13.go", "pipeline/zz_verif_p10.go", "pipeline/zz_verif_p09.go", "pipeline/zz_verif_p14.go", "pipeline/zz_verif_p12.go", "pipeline/zz_verif_p20.go", "pipeline/zz_verif_p07.go", "config::config/zz_verif_export.go", "annotation::annotation/zz_verif_export.go", "assertion/global::global/zz_verif_export.go", "assertion/function/functioncontracts::functioncontracts_export/zz_verif_export.go", "assertion/function::function_export/zz_verif_export.go"]
 INFER_FILES = ["inference/zz_verif_c05.go", "inference/zz_verif_c05l2.go", "inference/zz_verif_c06.go", "inference/zz_verif_c04.go", "inference/zz_verif_c15.go", "inference/zz_verif_c15m.go", "inference/zz_verif_c08.go", "inference/zz_verif_registry.go",
                "annotation::annotation/zz_verif_export.go"]
 
@@ -550,3 +550,9 @@ PROPERTIES["C01"]["runs"] += [
 ]
 PROPERTIES["C01"]["bounds"]["quick"] += "; the two-statement programs with parallel assignments (`x, y = y, x`, `x, y = nil, x`) and two-parameter callees (1135)"
 PROPERTIES["C01"]["bounds"]["thorough"] += "; the three-statement programs with parallel assignments and two-parameter callees (9054)"
+
+PROPERTIES["C20"]["runs"] += [dict(pkg="accumulation", files=PIPE_FILES, entry="Harness_P20", args=dict(sample_every=5, max_samples=20))]
+PROPERTIES["C20"]["explanation"] += (" Source level (P20): " + PIPE_EXPL + "plus, for this harness, the package's REAL SSA (ssa.NewProgram / CreatePackage / Build on the type-checked AST), the REAL inferContracts on every eligible function, "
+    "call-site sites in the assertion tree and the REAL duplication of the callee's triggers. A callee in ten shapes, an argument that is nil / fresh / either behind an opaque flag, four uses (direct, nested call, checked, via a local): "
+    "'Entry can dereference nil => reported' per program, and 'a true nonnil->nonnil contract keeps non-nil arguments clean'.")
+PROPERTIES["C20"]["bounds"]["quick"] += "; source level: all 120 programs of the P20 family"
